@@ -15,19 +15,26 @@ open Mqtt
 
 /-- message handlers and OnError run with no library mutex held -/
 theorem handlers_called_without_locks :
-    (Generated.callbackCalls.all (fun c => (c.2.2.1 == "connstate") || c.2.2.2.isEmpty)) = true := by decide +kernel
+    (Generated.callbackCalls.all (fun c => (c.2.2.1 == "connstate") || (c.2.2.1 == "sethandler") || c.2.2.2.isEmpty)) = true := by decide +kernel
+
+/-- C17: the RetryClient forwards a handler to a base client (`cli.Handle(h)`, kind `sethandler`: library code, not
+    user code) only while holding its own mutex exclusively, i.e. atomically with the update (`Handle`) or the read
+    (`Connect`) of `RetryClient.handler`: whenever that mutex is free, the current base client carries the registered
+    handler. (A snapshot taken under the lock and installed after releasing it could overwrite a newer handler.) -/
+theorem handler_forwarded_under_mu :
+    (Generated.callbackCalls.all (fun c => !(c.2.2.1 == "sethandler") || c.2.2.2.contains "RetryClient.mu")) = true ∧
+    1 ≤ (Generated.callbackCalls.filter (fun c => c.2.2.1 == "sethandler")).length := by decide +kernel
 
 /-- the state callback runs holding at most `muConnecting` -/
 theorem connstate_under_muConnecting_only :
     (Generated.callbackCalls.all (fun c => !(c.2.2.1 == "connstate") ||
       c.2.2.2.all (fun m => m == "BaseClient.muConnecting" || m == "BaseClient.muConnecting:r"))) = true := by decide +kernel
 
-/-- non-vacuity: the reader loop's hand-over site(s), the mux, the async wrapper and OnError are in the table -/
-theorem table_covers_the_handover_sites :
-    (Generated.callbackCalls.any (fun c => c.1 == "(*ServeMux).Serve" && c.2.2.1 == "handler")) = true ∧
-    (Generated.callbackCalls.any (fun c => c.1 == "(*ServeAsync).Serve" && c.2.2.1 == "handler")) = true ∧
-    (Generated.callbackCalls.any (fun c => c.1 == "(*RetryClient).onError" && c.2.2.1 == "onerror")) = true ∧
+/-- non-vacuity: the table lists hand-overs to message handlers, the OnError callback and the state callback -/
+theorem table_covers_the_callback_kinds :
+    (Generated.callbackCalls.any (fun c => c.2.2.1 == "handler")) = true ∧
+    (Generated.callbackCalls.any (fun c => c.2.2.1 == "onerror")) = true ∧
     (Generated.callbackCalls.any (fun c => c.2.2.1 == "connstate")) = true ∧
-    1 ≤ (Generated.callbackCalls.filter (fun c => c.2.2.1 == "handler" && !(c.1 == "(*ServeMux).Serve") && !(c.1 == "(*ServeAsync).Serve"))).length := by decide +kernel
+    3 ≤ Generated.callbackCalls.length := by decide +kernel
 
 end Mqtt.C11.Tie
